@@ -173,7 +173,7 @@ def run_shard(shard, tier):
     mods = env.install_set_seam(('concepts.tools',))
     TRIPLE_LIMIT[0] = 6 if tier == 'quick' else 8
     try:
-        return e1.run_shard_generic(shard, tier, ID, check_case, variants=('pickle', 'fromdict-raw'), wide_variants=(),
+        return e1.run_shard_generic(shard, tier, ID, check_case, variants=('pickle', 'fromdict-raw', 'used'), wide_variants=(),
                                     both_labelings=(tier != 'quick' or shard[0] == 'F'))
     finally:
         env.remove_set_seam(mods)
